@@ -115,6 +115,11 @@ func schemas() []named {
 		{"Enum[any](a,2.5)", "enum", types.Enum[any]("a", 2.5)},
 		{"EnumSlice[any]([S1{}])", "enum", types.EnumSlice([]any{cx.S1{}, "z"})},
 		{"LiteralOf[any]([S1{},nil-free])", "literal", types.LiteralOf([]any{cx.S1{A: 1}, [1]any{"q"}})},
+		// literal members that cannot be compared with == (what FromJSONSchema builds for a composite const/enum member),
+		// probed with inputs of the SAME dynamic type (only then does == panic)
+		{"LiteralOf[any]([[]any{1},map{k:1},\"s\"])", "literal", types.LiteralOf([]any{[]any{1}, map[string]any{"k": 1}, "s"})},
+		{"LiteralOf[any]([[]int{1,2},S1{A:[]int}])", "literal", types.LiteralOf([]any{[]int{1, 2}, cx.S1{A: []int{1}}})},
+		{"LiteralPtrOf[any]([[]any{}])", "literal", types.LiteralPtrOf([]any{[]any{}})},
 		{"Nil()", "nil", types.Nil()}, {"Any()", "any", types.Any()}, {"Unknown()", "unknown", types.Unknown()}, {"Never()", "never", types.Never()},
 		{"File()", "file", types.File()}, {"Function()", "function", types.Function()},
 		{"Slice[any](Int())", "slice", types.Slice[any](types.Int())}, {"Slice[int](Int()).Min(1)", "slice", types.Slice[int](types.Int()).Min(1)},
